@@ -22,7 +22,7 @@ import (
 // lock taken by conditional requests, a worker pool of one: each blocks B here.)
 
 type ProgressCase struct {
-	ACond string  `json:"a_cond"` // headers of the stalled upload: "" | inm-star | im-star (onto an existing file)
+	ACond string  `json:"a_cond"` // the stalled request: an upload with headers "" | inm-star | im-star (onto an existing file), or propfind-body | proppatch-body (a request document that stops arriving halfway)
 	B     vfs.Req `json:"b"`
 }
 
@@ -92,17 +92,30 @@ func evalProgress(c ProgressCase) (vev.Outcome, error) {
 	case "im-star":
 		ra.Path, ra.IfMatch = "/a/existing.txt", "*"
 	}
+	first, rest := "first part, ", "second part"
+	switch c.ACond {
+	case "propfind-body":
+		ra = vfs.Req{Method: "PROPFIND", Path: "/a", Depth: "1", Body: "x", ContentType: "application/xml"}
+		first, rest = `<?xml version="1.0"?><propfind xmlns="DAV:"><pr`, `op><getcontentlength/><resourcetype/></prop></propfind>`
+	case "proppatch-body":
+		ra = vfs.Req{Method: "PROPPATCH", Path: "/a/existing.txt", Body: "x", ContentType: "application/xml"}
+		first, rest = `<?xml version="1.0"?><propertyupdate xmlns="DAV:"><set><prop><displ`, `ayname>n</displayname></prop></set></propertyupdate>`
+	}
+	upload := ra.Method == "PUT"
 	reqA, _, err := cfs.BuildRequest(ra)
 	if err != nil {
 		return vev.Outcome{}, err
 	}
-	g := &gate{first: []byte("first part, "), rest: []byte("second part"), started: make(chan struct{}), release: make(chan struct{})}
+	g := &gate{first: []byte(first), rest: []byte(rest), started: make(chan struct{}), release: make(chan struct{})}
 	reqA.Body, reqA.ContentLength = g, int64(len(g.first)+len(g.rest))
 	doneA := make(chan cfs.Resp, 1)
 	go func() { doneA <- cfs.Serve(srv.H, reqA) }()
 	select {
 	case <-g.started:
 	case ra := <-doneA:
+		if !upload {
+			return vev.Outcome{}, nil // answered without reading its document: nothing is pending, the case says nothing
+		}
 		return dev(cls+"|upload-answered-before-its-body", "the stalled upload was answered %d before its body had arrived", ra.Status), nil
 	case <-time.After(20 * time.Second):
 		close(g.release)
@@ -133,11 +146,38 @@ func evalProgress(c ProgressCase) (vev.Outcome, error) {
 	if got.Status != want.Status {
 		return dev(cls+"|status-differs-from-alone", "%s answered %d next to a pending upload, %d when served alone", c.B.String(), got.Status, want.Status), nil
 	}
-	if respA.Status != 201 && !(c.ACond == "im-star" && (respA.Status == 200 || respA.Status == 204)) {
-		return dev(cls+"|upload-status", "the upload answered %d after its body was completed", respA.Status), nil
-	}
-	if b, _ := os.ReadFile(filepath.Join(root, filepath.FromSlash(ra.Path))); string(b) != "first part, second part" {
-		return dev(cls+"|upload-content", "the upload stored %q", b), nil
+	if !upload {
+		// served alone, with its document arriving in one piece, the stalled request gets wantA
+		ra.Body = first + rest
+		if err := progressTree(alone); err != nil {
+			return vev.Outcome{}, err
+		}
+		wantA, err := cfs.NewServer(alone).Do(ra)
+		if err != nil {
+			return vev.Outcome{}, err
+		}
+		if respA.Status != wantA.Status {
+			return dev(cls+"|stalled-status", "%s answered %d after its document was completed next to %s, %d when served alone", ra.Method, respA.Status, c.B.String(), wantA.Status), nil
+		}
+		if sa, _ := cfs.Snapshot(filepath.Join(alone, "a")); true {
+			sb, _ := cfs.Snapshot(filepath.Join(root, "a"))
+			if (sa == nil) != (sb == nil) || (sa != nil && !sa.Equal(sb)) {
+				return dev(cls+"|stalled-effect", "%s left %v under /a, %v when served alone", ra.Method, sb, sa), nil
+			}
+		}
+		if err := progressTree(alone); err != nil {
+			return vev.Outcome{}, err
+		}
+		if _, err := cfs.NewServer(alone).Do(c.B); err != nil {
+			return vev.Outcome{}, err
+		}
+	} else {
+		if respA.Status != 201 && !(c.ACond == "im-star" && (respA.Status == 200 || respA.Status == 204)) {
+			return dev(cls+"|upload-status", "the upload answered %d after its body was completed", respA.Status), nil
+		}
+		if b, _ := os.ReadFile(filepath.Join(root, filepath.FromSlash(ra.Path))); string(b) != "first part, second part" {
+			return dev(cls+"|upload-content", "the upload stored %q", b), nil
+		}
 	}
 	// everything below /b is what B alone leaves behind
 	sa, _ := cfs.Snapshot(filepath.Join(alone, "b"))
@@ -164,7 +204,7 @@ func TestIndependentProgress(t *testing.T) {
 		vfs.Req{Method: "MOVE", Path: "/b/g", HasDest: true, Dest: "/b/f"}, vfs.Req{Method: "MOVE", Path: "/b/sub", HasDest: true, Dest: "/b/sub2", Overwrite: "F"},
 		vfs.Req{Method: "DELETE", Path: "/b/sub"}, vfs.Req{Method: "PUT", Path: "/b/sub", Body: "onto a collection"})
 	idx := 0
-	for _, ac := range []string{"", "inm-star", "im-star"} {
+	for _, ac := range []string{"", "inm-star", "im-star", "propfind-body", "proppatch-body"} {
 		for _, b := range bs {
 			idx++
 			if !vev.MyShare(idx) {
